@@ -71,7 +71,7 @@ Print Assumptions C14_mania_cap.
 
 (* taiko: max combo = min(n, number of hits) — monotone and capped by construction *)
 Theorem C14_taiko_combo : forall (S : Type) (process : S -> Z -> S) (s0 : S)
-    (flags : list bool) (take : Z), 0 <= take ->
+    (flags : list bool) (take : Z), 0 <= take -> taiko_total_hits flags < U32_MAX ->
   fst (taiko_oneshot S process s0 flags take) = Z.min take (taiko_total_hits flags).
 Proof. exact taiko_oneshot_combo. Qed.
 Print Assumptions C14_taiko_combo.
